@@ -14,16 +14,16 @@ from vlib import monitors as M
 ID = "C05"
 LEVEL = "exploration"
 TECHNIQUE = "exact decimal grid oracle on every reported index/key list; normalize() monitor"
-RULE = ("lattice start in {0,1,.5,.1,.3,2.25,10,100.7} x dt in {1,.5,.25,.125,.1,.2,.3,.05,.01} x n steps "
+RULE = ("lattice start in {0,1,.5,.1,.3,2.25,10,100.7,.05,-1,-.3,-2} x dt in {1,.5,.25,.125,.1,.2,.3,.05,.01} x n steps "
         "(quick: 0..12,15,20,30,45,60; thorough: also 61..400 stepwise); observed at util.timerange (exclusive/inclusive), "
-        "run_scenarios index (df/dict/json), Element.plot index, run_step keys, session_results keys (by time / by equation), "
+        "run_scenarios index (df/dict/json), Element.plot index, run_step keys, session_results keys (by time / by equation) for a session begun with explicit start and dt and for one begun with defaults (nested and flat step results, session clock after every step), "
         "and 4 float routes to each grid time. distinct_nontrivial = distinct (start,dt) pairs with at least one grid value "
         "that is not exactly representable (i.e. naive float accumulation differs from the decimal grid).")
 ASSUMPTIONS = ["stop is on the grid by construction", "labels are compared as floats (==) and, for JSON, as the repr of the decimal grid float"]
-REQUIRED = {"timerange_lists": 100, "df_indexes": 100, "session_keys": 100, "routes": 1000, "normalize_calls": 1000}
+REQUIRED = {"default_session_keys": 100, "timerange_lists": 100, "df_indexes": 100, "session_keys": 100, "routes": 1000, "normalize_calls": 1000}
 BUDGET_S = {"quick": 100, "thorough": 1500}
 
-STARTS = ["0", "1", "0.5", "0.1", "0.3", "2.25", "10", "100.7"]
+STARTS = ["0", "1", "0.5", "0.1", "0.3", "2.25", "10", "100.7", "-1", "-0.3", "-2", "0.05"]     # incl. negative starts whose grid passes through 0
 DTS = ["1", "0.5", "0.25", "0.125", "0.1", "0.2", "0.3", "0.05", "0.01"]
 
 
@@ -157,6 +157,40 @@ def run_case(case):
             check_list("session_results(by time) keys", list(b.session_results().keys()))
             byeq = b.session_results(index_by_time=False)
             check_list("session_results(by equation) keys", list(byeq["smGrid"]["base"]["equations"]["s"].keys()))
+            b.end_session()
+            # 4b. a session begun with defaults (no starttime / dt given, as the REST begin-session does): it steps on the scenario's own grid;
+            #     every second step asks for the flat format
+            b.reset_scenario_cache(scenario_manager="smGrid", scenario="base")
+            # (begin_session documents its start as max(starttime argument = 0.0, scenario start): a scenario that starts before 0 needs the explicit argument)
+            if start >= 0:
+                b.begin_session(scenarios=["base"], scenario_managers=["smGrid"], equations=["s"])
+            else:
+                b.begin_session(scenarios=["base"], scenario_managers=["smGrid"], equations=["s"], starttime=start)
+            keys = []
+            for i in range(case["n"] + 5):
+                flat = bool(i % 2)
+                r = b.run_step(flat=flat)
+                if r is None or "msg" in r:
+                    break
+                if flat:
+                    v = r["smGrid"]["base"]["s"]
+                    ks = [b.session_state["step"] - 0.0]      # the flat format carries no label: the clock after the step is judged below instead
+                    keys.append(exp[i] if i < len(exp) else None)
+                else:
+                    ks = list(r["smGrid"]["base"]["s"].keys())
+                    if len(ks) != 1:
+                        bad.append(dict(where="run_step (default session) result", kind="multi-time", step=i, keys=ks))
+                    keys += ks
+                    v = r["smGrid"]["base"]["s"][ks[0]]
+                if i < len(exp) and abs(v - expval(i)) > 1e-9:
+                    bad.append(dict(where="run_step (default session) value", kind="value", step=i, flat=flat, got=v, expected=expval(i)))
+                    break
+                if i + 1 < len(exp) and b.session_state["step"] != exp[i + 1]:
+                    bad.append(dict(where="session clock (default session)", kind="label", step=i, got=[b.session_state["step"]], expected_tail=[exp[i + 1]]))
+                    break
+            check_list("run_step keys (default session)", keys)
+            counters["default_session_keys"] = len(keys)
+            check_list("session_results keys (default session)", list(b.session_results().keys()))
             b.end_session()
             # 5. float routes to the same grid point, evaluated on the model itself
             acc = start
